@@ -1,6 +1,8 @@
 package implements
 
 import (
+	"go/types"
+
 	"github.com/a14e/gogreement/src/annotations"
 )
 
@@ -185,6 +187,12 @@ func signaturesMatch(typeMethod TypeMethod, ifaceMethod InterfaceMethod) bool {
 
 // typesMatch checks if two types are the same
 func typesMatch(t1 *MethodType, t2 *InterfaceType) bool {
+	if t1.typ != nil && t2.typ != nil {
+		// Both sides were loaded from go/types: type identity decides
+		// (aliases, byte/uint8, any/interface{}, pointer depth)
+		return t1.IsVariadic == t2.IsVariadic && types.Identical(t1.typ, t2.typ)
+	}
+
 	return t1.TypeName == t2.TypeName &&
 		t1.TypePackage == t2.TypePackage &&
 		t1.IsPointer == t2.IsPointer &&
